@@ -14,7 +14,7 @@ from ..core import Ctx, REPO, enc
 
 THEOREMS = [
     "Docstring.ensure_total", "Docstring.doc_total", "Docstring.summary_total", "Docstring.extract_total",
-    "Docstring.toc_total_partial", "Docstring.total_partial", "Docstring.total_counterexample",
+    "Docstring.toc_total", "Docstring.total", "Docstring.total_old_counterexample", "Docstring.toc_old_spec",
     "Docstring.base_get_summary_total",
     "Docstring.toc_spec", "Docstring.fallback_full_text", "Docstring.isolation_source",
     "Docstring.parse_fallback_full_text", "Docstring.ensure_fallback_full_text",
@@ -26,10 +26,6 @@ THEOREMS = [
     "Docstring.epytext_raises_iff_fatal",
 ]
 PARTIAL = {
-    "Docstring.toc_total_partial": "format_toc returns for every behaviour of the parameters EXCEPT: to_node of the object's "
-        "parsed docstring raising something other than NotImplementedError, or build_table_of_content raising "
-        "(get_toc is called outside safe_to_stan; Docstring.total_counterexample is the witness)",
-    "Docstring.total_partial": "same exclusion, all five entry points together",
     "Docstring.parse_fallback_full_text": "the 'exactly one report group' half needs: the parser stored at least one error "
         "before raising ParseError (epytext does: epytext_raises_iff_fatal) and the object was not reported before",
     "Docstring.render_failure_reported": "needs: the object was not reported before in this section "
@@ -45,8 +41,9 @@ RULE = ("fault stream: the real epydoc2stan/markup functions run over stub parse
         "through the AST builder. Non-trivial = the parser or a renderer step fails/falls back (fault stream) / the real "
         "parser reports at least one error (real stream).")
 ASSUMPTIONS = [
-    "parameters are deterministic functions (a to_stan that raises once raises again); the _stan/_summary caches of "
-    "ParsedDocstring are therefore not observable and not modelled",
+    "parameters are deterministic functions (a to_stan/to_node that raises once raises again — true of the epytext renderer "
+    "since a0ab2a9; the oracle re-renders a fresh parse to check it); the _stan/_summary caches of ParsedDocstring are "
+    "therefore not observable and not modelled",
     "parsers, to_stan, to_node raise only Exception subclasses (KeyboardInterrupt/SystemExit/MemoryError are not handled by "
     "parse_docstring/safe_to_stan and are outside the property); to_stan returns a Tag",
     "termination and exception behaviour INSIDE the epytext/docutils/napoleon parsers and twisted's flattener is not proved; "
@@ -154,7 +151,9 @@ class World:
             o.docstring_lineno = 0
         for mi in (0, 6):
             f = modfmt.get(mi)
-            self.objs[mi].docformat = None if f is None else FMT_OF[f]
+            # 'u': a name that is no parser — a missing module (ImportError) or, for module n, an existing markup
+            # module without get_parser (AttributeError, handled since 3d65cd1)
+            self.objs[mi].docformat = None if f is None else ("doctest" if f == "u" and mi == 6 else FMT_OF[f])
         self.reports = []
         self.records = {}
 
@@ -378,7 +377,7 @@ def fault_patches(w: World):
 
     def get_parser(docformat, obj=None):
         if docformat not in FMTS:
-            return real_get(docformat, obj)
+            return real_get(docformat, obj)   # raises ImportError / AttributeError
         p = w.spec.get("par", {}).get((FMTS[docformat], w.oid(obj)))
 
         def parser(doc, errs):
